@@ -293,6 +293,18 @@ func (f *Flat) errStatesFrom(A int, E types.Object, twins bool) ErrStates {
 	seen := map[string]bool{}
 	var work []item
 	cur := A
+	// the distinct source ranges of what was spliced in
+	var inlRanges []InlInfo
+	{
+		have := map[[2]token.Pos]bool{}
+		for _, ii := range f.Inl {
+			k := [2]token.Pos{ii.Lo, ii.Hi}
+			if !have[k] {
+				have[k] = true
+				inlRanges = append(inlRanges, ii)
+			}
+		}
+	}
 	push := func(id int, s string, cs []types.Object) {
 		ek := edgeKey(cur, id)
 		if st[ek] == nil {
@@ -319,6 +331,26 @@ func (f *Flat) errStatesFrom(A int, E types.Object, twins bool) ErrStates {
 		n := f.Nodes[it.id]
 		cur = it.id
 		cs := it.cs
+		// back in the function's own statements, what was declared inside a spliced-in helper or closure is gone:
+		// the parameter of skip(step, err) does not carry the error into the next iteration of the caller's loop
+		if _, inHelper := f.Inl[it.id]; !inHelper && len(f.Inl) > 0 && n.Ast != nil {
+			var keep []types.Object
+			for _, c := range cs {
+				local := false
+				for _, ii := range inlRanges {
+					if ii.Lo.IsValid() && c.Pos() >= ii.Lo && c.Pos() <= ii.Hi {
+						local = true
+					}
+				}
+				if !local || c == E {
+					keep = append(keep, c)
+				}
+			}
+			if len(keep) == 0 {
+				continue
+			}
+			cs = keep
+		}
 		if n.Ast != nil {
 			var joined []types.Object
 			if as, ok := n.Ast.(*ast.AssignStmt); ok && len(as.Lhs) == len(as.Rhs) {
